@@ -112,6 +112,33 @@ func newLiveEnv() *liveEnv {
 	mux := http.NewServeMux()
 	hopts := []connect.HandlerOption{connect.WithCodec(h.ToyCodec{})}
 	reply := func(i int) *h.Raw { return &h.Raw{B: []byte(fmt.Sprintf("reply-%d", i))} }
+	// a bidi handler that answers with one 1 KiB message and then reads the request to its end
+	// (it terminates as soon as the client closes its request side)
+	mux.Handle("/verif.Svc/BigThenDrain", connect.NewBidiStreamHandler("/verif.Svc/BigThenDrain", func(ctx context.Context, s *connect.BidiStream[h.Raw, h.Raw]) error {
+		o := e.get(s.RequestHeader().Get("X-Call"))
+		o.mu.Lock()
+		o.Started = true
+		o.mu.Unlock()
+		defer close(o.returned)
+		if err := s.Send(bigMsg(1024)); err != nil {
+			return err
+		}
+		deadline := time.After(handlerCtxWait)
+		done := make(chan struct{})
+		go func() {
+			defer close(done)
+			for {
+				if _, err := s.Receive(); err != nil {
+					return
+				}
+			}
+		}()
+		select {
+		case <-done:
+		case <-deadline:
+		}
+		return nil
+	}, hopts...))
 	mux.Handle("/verif.Svc/Bidi", connect.NewBidiStreamHandler("/verif.Svc/Bidi", func(ctx context.Context, s *connect.BidiStream[h.Raw, h.Raw]) error {
 		p := parseProg(s.RequestHeader().Get("X-Prog"))
 		o := e.get(s.RequestHeader().Get("X-Call"))
@@ -1103,6 +1130,9 @@ func liveFamily(r *h.Run, rng *h.Rng, fam string, cancelMode bool) {
 		}
 		setDelays(nil)
 		for _, proto := range protos {
+			e.liveLocalFailure(r, fam, proto)
+		}
+		for _, proto := range protos {
 			e.liveRejected(r, fam, "bidi", proto, true)
 			e.liveRejected(r, fam, "client", proto, rng.Bool())
 			e.liveRejected(r, fam, "unary", proto, rng.Bool())
@@ -1311,6 +1341,51 @@ func (e *liveEnv) liveUnaryStall(r *h.Run, fam, proto string, h2, deadline bool)
 		c.r.Fail(h.Failure{Key: "cancel/code/CallUnary", Family: fam, What: "a unary call whose context ended while it waited for the end of the response returned " + got, Input: c.input(), Expected: want, Actual: got})
 	}
 	r.Sample(fam, c.input())
+}
+
+// liveLocalFailure: the client's Receive fails for a reason of its own (the message is beyond
+// its read limit) while the handler — which terminates once the client closes its request side
+// — is still waiting: the program Send, Receive, CloseRequest, CloseResponse must run to its
+// end, every call returning in bounded time.
+func (e *liveEnv) liveLocalFailure(r *h.Run, fam, proto string) {
+	c := &liveCall{r: r, mode: "C14", fam: fam, kind: "bidi", proto: proto, h2: true, prog: hprog{}}
+	c.id = fmt.Sprint(e.seq.Add(1))
+	c.obs = e.get(c.id)
+	c.cc = &countingClient{inner: e.srv2.Client()}
+	client := connect.NewClient[h.Raw, h.Raw](c.cc, e.srv2.URL+"/verif.Svc/BigThenDrain", append(liveClientOpts(proto), connect.WithReadMaxBytes(256))...)
+	c.log = append(c.log, "[the client limits messages to 256 bytes; the handler sends 1 KiB and then reads the request to its end]")
+	r.Eval(fam, fmt.Sprintf("local-failure/%s", proto))
+	ctx, cancel := context.WithCancel(context.Background())
+	defer cancel()
+	st := client.CallBidiStream(ctx)
+	st.RequestHeader().Set("X-Call", c.id)
+	c.step("Send", func() error { return st.Send(bigMsg(16)) })
+	start := time.Now()
+	done := make(chan error, 1)
+	go func() { _, err := st.Receive(); done <- err }()
+	select {
+	case err := <-done:
+		c.log = append(c.log, "Receive -> "+liveCls(err))
+		if err == nil {
+			c.r.Fail(h.Failure{Key: "outcome/oversize-delivered", Family: fam, What: "a message beyond the client's read limit was delivered", Input: c.input()})
+		}
+	case <-time.After(1500 * time.Millisecond):
+		c.log = append(c.log, fmt.Sprintf("Receive -> DID NOT RETURN within %v (the handler waits for the end of the request, which this program sends after Receive)", time.Since(start).Round(100*time.Millisecond)))
+		key := "hang/Receive"
+		if proto == "grpc" {
+			key = "hang/grpc/receive-drains-after-local-failure"
+		}
+		c.r.Fail(h.Failure{Key: key, Family: fam, What: "Receive did not return although its failure was local (the message was beyond the read limit): it waits for the handler to end the response, and the handler waits for the client to close the request side", Input: c.input()})
+		_ = st.CloseRequest() // release both sides
+		<-done
+		_ = st.CloseResponse()
+		r.Sample(fam, c.input())
+		return
+	}
+	c.step("CloseRequest", func() error { return st.CloseRequest() })
+	c.step("CloseResponse", func() error { return st.CloseResponse() })
+	r.Sample(fam, c.input())
+	c.afterCall(true)
 }
 
 // liveEarlyHeaders: the peer has sent its response headers while the request
